@@ -36,7 +36,7 @@ def main():
                 "text": c["claim"] if "claim" in c else c.get("explanation", ""),
                 "design_ref": c.get("design_ref", "DESIGN.md §7"),
             },
-            "level_note": "; ".join(c.get("assumptions", [])) or "see evidence trusted_base",
+            "level_note": "; ".join(list(c.get("assumptions", [])) + [f"bounded stand-in (not proof): {w}" for _s, w in c.get("bounded", [])]) or "see evidence trusted_base",
             "technique": c.get("technique", "contract-based deductive verification (Verus) of functions extracted mechanically from /repo on every run"),
         })
     m = {
@@ -52,7 +52,10 @@ def main():
         "engines": [
             {"name": "vx", "path": "/verif/vx", "serves_properties": sorted(P.PROPS), "kind_free_text": "syn-based extractor: real functions -> Verus subset, rule table in DESIGN.md §3"},
             {"name": "verus", "path": "/usr/local/bin/verus", "serves_properties": sorted(P.PROPS), "kind_free_text": "deductive verifier (Z3 back end)"},
-            {"name": "replay", "path": "/verif/replay", "serves_properties": sorted(P.PROPS), "kind_free_text": "witness search / replay against the real crates; never a verdict"},
+            {"name": "kani", "path": "/root/.kani", "serves_properties": sorted(p for p, c in P.PROPS.items() if c.get("kani")),
+             "kind_free_text": "Kani 0.68 / CBMC on generated crates that hold the extracted function text (verify_token: complete for token lengths 0..=40; RateLimiter::enqueue: step contract on a model clock / two-slot map); counterexamples are replayed natively with `cargo kani playback`"},
+            {"name": "replay", "path": "/verif/replay", "serves_properties": sorted(P.PROPS),
+             "kind_free_text": "the real crates driven on fixed input sets: witness search for a failed obligation; labelled *bounded* stand-in (a) for the declared part of C03 that is outside the verifier's reach and (b) whenever a change moves a function under contract out of the extractor's / Verus' reach; never counted as proof"},
         ],
         "checks": checks,
         "not_applicable": [{"property_id": k, "reason": v} for k, v in sorted(na.NOT_APPLICABLE.items()) if k not in P.PROPS],
